@@ -344,6 +344,31 @@ theorem insert_takes_free_head (multi : Bool) (ops : List (Op K)) (op : Op K) (r
   · right; cases op <;> simp [toOp] at a
     exact ⟨_, _, _, rfl⟩
 
+theorem run_snoc_k (multi : Bool) (ops : List (Op K)) (op : Op K) : run multi (ops ++ [op]) = step' (run multi ops) op := by
+  simp [run, List.foldl_append]
+
+/-- **LIFO reuse, for every key type**: the item created by the first creating op after `remove(iterator)` gets exactly
+    the address of the item just removed, and the free list is back to what it was before the removal. -/
+theorem remove_then_insert_reuses (multi : Bool) (ops : List (Op K)) (p : Nat) (r1 : St K × Out)
+    (h1 : step (run multi ops) (.removeAt p) = some r1) (op : Op K) (r2 : St K × Out) (h2 : step r1.1 op = some r2)
+    (hc : r2.1.size = r1.1.size + 1) :
+    ∃ q, r2.2.ret = .it q ∧ (r2.1.t.inorder.map (fun e => e.1))[q]? = (run multi ops).order[p]? ∧
+      r2.1.free = (run multi ops).free := by
+  have e1 : run multi (ops ++ [.removeAt p]) = r1.1 := by
+    rw [run_snoc_k]; unfold step'; rw [h1]
+  rw [← e1] at h2 hc
+  obtain ⟨_, ⟨q, b1, b2⟩, _, d, _⟩ := insert_takes_free_head multi (ops ++ [.removeAt p]) op r2 h2 hc
+  rw [e1] at b2 d
+  simp only [step] at h1
+  unfold St.removeAt at h1
+  cases ho : (run multi ops).order[p]? with
+  | none => rw [ho] at h1; simp at h1
+  | some id =>
+    rw [ho] at h1
+    simp only [Option.some.injEq] at h1; subst h1
+    simp only [St.alloc] at b2 d
+    exact ⟨q, b1, b2, d⟩
+
 end G
 
 end Nstd.Avl
